@@ -84,7 +84,7 @@ def run(tier):
         total = 0
         # (edges: one witness walk per transition of the model's state graph; walks: EVERY walk of 5 steps at a tiny
         #  geometry, because a defect of the real cache has states the model does not have)
-        edge_cfgs = [("MC_LruFile_edges.cfg", 2, 2), ("MC_LruFile_walks.cfg", 1, 2)] + ([("MC_LruFile_edges2.cfg", 1, 3), ("MC_LruFile_walks2.cfg", 1, 3)] if tier == "thorough" else [])
+        edge_cfgs = [("MC_LruFile_edges.cfg", 2, 2), ("MC_LruFile_walks.cfg", 1, 2), ("MC_LruFile_reset.cfg", 1, 2)] + ([("MC_LruFile_edges2.cfg", 1, 3), ("MC_LruFile_walks2.cfg", 1, 3)] if tier == "thorough" else [])
         for cfg, cs, ne in edge_cfgs:
             r = vlib.run_tlc("LruFile", cfg, timeout=TO, workers=1, heap="8g")
             if r.error or not r.ok:
@@ -97,7 +97,7 @@ def run(tier):
             res, viols = vlib.validate_trace("Trace_LruFile", "Trace_LruFile.cfg", tp, n, "TV lru", timeout=TO)
             drift = vlib.parse_tagged(res.prints, "DRIFT")
             total += n
-            run.coverage["lru_%s_cs%d_ne%d" % ("all_walks" if "walks" in cfg else "witness_walks", cs, ne)] = n
+            run.coverage["lru_%s_cs%d_ne%d" % ("all_walks" if "walks" in cfg else "all_walks_with_resets" if "reset" in cfg else "witness_walks", cs, ne)] = n
             run.coverage["spec_drift"] = run.coverage.get("spec_drift", 0) + len(drift)
             if drift:
                 run.note("spec drift: LruFile.tla predicts other results/counters than the real cache, e.g. %s" % json.dumps(vlib.get_line(tp, drift[0][0]))[:500])
